@@ -191,3 +191,18 @@ Proof.
     intro E. exact (fetch_all_sound H _ d b E).
   - intros s name d b E. exact (fetch_all_sound H _ d b E).
 Qed.
+
+Lemma proxy_histories (H : str -> str -> str) :
+    (forall m, proxy_reach H m ->
+       forall d bs, mem_get m d = Some bs -> matches_desc H (d_dg d) (d_sz d) bs) /\
+    (forall limit stop m d comb evs ks rs ce m' bs,
+       proxy_reach H m -> mem_get m d = Some bs ->
+       proxy_fetch H limit stop m d comb evs ks = ((rs, ce), m') ->
+       matches_desc H (d_dg d) (d_sz d) bs /\ m' = m /\ ce = None /\
+       exists rest, bs = concat (map fst rs) ++ rest).
+Proof.
+  split.
+  - intros m R. exact (proxy_reach_ok H m R).
+  - intros limit stop m d comb evs ks rs ce m' bs R G E.
+    exact (proxy_history_hit H limit stop m d comb evs ks rs ce m' bs R G E).
+Qed.
